@@ -4,6 +4,7 @@ import (
 	"encoding"
 	"encoding/json"
 	"fmt"
+	"sort"
 	"strings"
 	"sync"
 
@@ -76,11 +77,17 @@ func (s *store) Iterate(prefix string, iterFunc storage.StateIterFunc) (err erro
 	s.mtx.RLock()
 	defer s.mtx.RUnlock()
 
-	for k, v := range s.store {
-		if !strings.HasPrefix(k, prefix) {
-			continue
+	// visit in ascending key order, like the leveldb implementation
+	keys := make([]string, 0, len(s.store))
+	for k := range s.store {
+		if strings.HasPrefix(k, prefix) {
+			keys = append(keys, k)
 		}
+	}
+	sort.Strings(keys)
 
+	for _, k := range keys {
+		v := s.store[k]
 		val := make([]byte, len(v))
 		copy(val, v)
 		stop, err := iterFunc([]byte(k), val)
